@@ -40,10 +40,10 @@ TraceNext ==
   \/ Ev("remove", "sdocsDel") /\ SDel5
   \/ Ev("remove", "indexDel") /\ SDel6
   \/ (Ev("RESET", "") /\ files' = {} /\ bad' = {} /\ pc' = "none" /\ hasData' = FALSE /\ delBegun' = FALSE
-        /\ status' = "Up" /\ served' = "none" /\ crashes' = 0 /\ hist' = <<>>)
+        /\ status' = "Up" /\ served' = "none" /\ crashes' = 0 /\ hist' = <<>> /\ rel' = "none")
 
 TraceInit == Init /\ l = 1
 TraceSpec == TraceInit /\ [][TraceNext]_tvars
-TraceView == <<files, bad, pc, hasData, delBegun, status, served, l>>
+TraceView == <<files, bad, pc, hasData, delBegun, status, served, rel, l>>
 TraceAccepted == TLCGet("stats").diameter - 1 = Len(Trace)
 =============================================================================
